@@ -6,7 +6,8 @@
 (*             function called from the pattern), ENDFILE, END, root        *)
 (*             selector (-r)                                                *)
 (*   wrapper : if, while, for, for-in, function body, match block body,     *)
-(*             match expression body (a call inside it), block              *)
+(*             match expression body (a call inside it), block, a match     *)
+(*             block in a while condition / for init clause / for condition *)
 (*   leaf    : next exit return break continue fault                        *)
 (* Placements the parser must reject (return outside a function, break /    *)
 (* continue outside a loop of the same function) are emitted with the       *)
@@ -21,7 +22,7 @@ CONSTANTS MaxDepth
 
 P == [k |-> "print"]
 Contexts == {"B", "BF", "P", "PAT", "EF", "E", "SEL"}
-Wrappers == {"if", "while", "for", "forin", "fn", "matchb", "matche", "block"}
+Wrappers == {"if", "while", "for", "forin", "forins", "forino", "fn", "matchb", "matche", "block", "whilecond", "forinit", "forcond"}
 LeafKinds == {"next", "exit", "return", "break", "continue", "fault"}
 
 Leaf(l) == IF l = "return" THEN [k |-> "return", e |-> NoStmt] ELSE [k |-> l]
@@ -31,11 +32,19 @@ Wrap(w, s) ==
     [] w = "while" -> [k |-> "while", c |-> "true", b |-> s]
     [] w = "for" -> [k |-> "for", c |-> "true", init |-> "ok", post |-> "ok", b |-> s]
     [] w = "forin" -> [k |-> "forin", kind |-> "arr", n |-> 2, two |-> FALSE, b |-> s]
+    [] w = "forins" -> [k |-> "forin", kind |-> "str", n |-> 2, two |-> TRUE, b |-> s]
+    [] w = "forino" -> [k |-> "forin", kind |-> "obj", n |-> 2, two |-> TRUE, b |-> s]
     [] w = "fn" -> [k |-> "callstmt", f |-> 0, args |-> <<>>, fb |-> s]
     [] w = "matchb" -> [k |-> "matchstmt", subj |-> [k |-> "num", v |-> 1], bind |-> "z", b |-> s]
     [] w = "matche" -> [k |-> "set", n |-> "mv", e |-> [k |-> "match", subj |-> [k |-> "num", v |-> 1], bind |-> "z",
                                                           body |-> [k |-> "call", f |-> 0, args |-> <<>>, fb |-> s]]]
     [] w = "block" -> [k |-> "block", b |-> <<P, s, P>>]
+    \* a match block in the header of a loop whose body never runs: while (match (1) { z => { s } }) { },
+    \* for (match ...; false; 0) { }, for (0; match ...; 0) { }.  To the machine this is a match
+    \* statement (the block's value, null, ends the loop at once); the header is NOT part of the loop
+    \* for break / continue.
+    [] w \in {"whilecond", "forinit", "forcond"} ->
+         [k |-> "matchstmt", subj |-> [k |-> "num", v |-> 1], bind |-> "z", b |-> s, hdr |-> w]
 
 \* ws[1] is the outermost wrapper
 RECURSIVE Nest(_, _)
@@ -47,7 +56,9 @@ SinceFn(ws) == IF ws = <<>> THEN <<>>
                ELSE IF ws[Len(ws)] \in {"fn", "matche"} THEN <<>>
                ELSE Append(SinceFn(SubSeq(ws, 1, Len(ws) - 1)), ws[Len(ws)])
 InFn(ctx, ws) == ctx = "PAT" \/ \E i \in 1..Len(ws) : ws[i] \in {"fn", "matche"}
-InLoop(ws) == LET s == SinceFn(ws) IN \E i \in 1..Len(s) : s[i] \in {"while", "for", "forin"}
+Loops == {"while", "for", "forin", "forins", "forino"}
+ForIns == {"forin", "forins", "forino"}
+InLoop(ws) == LET s == SinceFn(ws) IN \E i \in 1..Len(s) : s[i] \in Loops
 
 \* what the parser accepts
 Accepted(ctx, ws, l) ==
@@ -60,14 +71,14 @@ Expressible(ctx, ws) == ctx = "SEL" => \A i \in 1..Len(ws) : ws[i] \notin {"fn",
 \* After consumption execution goes on, so a constant-true loop outside the
 \* consumer would never end; `continue` must not hit a constant-true loop.
 ConsumerIdx(w, l) ==
-  LET S == IF l \in {"break", "continue"} THEN {i \in 1..Len(w) : w[i] \in {"while", "for", "forin"}}
+  LET S == IF l \in {"break", "continue"} THEN {i \in 1..Len(w) : w[i] \in Loops}
            ELSE IF l = "return" THEN {i \in 1..Len(w) : w[i] \in {"fn", "matche"}}
            ELSE {}
   IN IF S = {} THEN 0 ELSE SetMax(S)
 Terminates(w, l) ==
   LET ci == ConsumerIdx(w, l) IN
   /\ \A i \in 1..(ci - 1) : w[i] \notin {"while", "for"}
-  /\ (l = "continue" /\ ci > 0) => w[ci] = "forin"
+  /\ (l = "continue" /\ ci > 0) => w[ci] \in ForIns
 
 ProgFor(ctx, ws, l) ==
   LET body == Nest(ws, l)
